@@ -514,6 +514,42 @@ def match_known(known, q, failure):
 
 # ---------------------------------------------------------------- property run
 
+_group_lock = threading.Lock()
+_group_failed = set()
+
+
+def run_query_chain(q):
+    """A query may be a *filter*: a cheaper abstraction whose PASS implies the PASS of the exact
+    query `q.fallback` (stated where the abstraction is defined) but whose FAILURE means nothing.
+    A failing filter is therefore never reported: the exact query is run and its result is the
+    result.  Filters of one `group` (e.g. one kernel over many sizes) stop pursuing exact queries
+    once one exact query of the group has failed (one counterexample is enough for a VIOLATION);
+    the remaining ones are recorded as 'skipped'."""
+    r = run_query(q)
+    fb = getattr(q, "fallback", None)
+    if fb is None:
+        return r, q
+    r["filter"] = True
+    if r["verdict"] != "fail":
+        return r, q
+    grp = getattr(q, "group", None)
+    with _group_lock:
+        skip = grp is not None and grp in _group_failed
+    _cleanup(r.get("qdir", ""))
+    if skip:
+        return {"name": fb.name, "verdict": "skipped", "harness": fb.harness, "params": {}, "seconds": r.get("seconds", 0),
+                "solver_seconds": r.get("solver_seconds", 0), "filter_failed": q.name,
+                "detail": "filter failed; exact query not run because an exact query of group %s already failed" % grp}, fb
+    r2 = run_query(fb)
+    r2["filter_failed"] = q.name
+    r2["seconds"] = round(r2.get("seconds", 0) + r.get("seconds", 0), 2)
+    r2["solver_seconds"] = round(r2.get("solver_seconds", 0) + r.get("solver_seconds", 0), 2)
+    if r2["verdict"] == "fail" and grp is not None:
+        with _group_lock:
+            _group_failed.add(grp)
+    return r2, fb
+
+
 def run_property(prop, tier, queries, meta):
     """Run all queries, replay failures, print verdict lines, write evidence; return exit code."""
     t0 = time.time()
@@ -528,12 +564,12 @@ def run_property(prop, tier, queries, meta):
     print("[%s/%s] %d queries, %d workers, repo fingerprint %s" % (prop, tier, len(queries), jobs, source_fingerprint()), flush=True)
     qmap = {}
     with cf.ThreadPoolExecutor(max_workers=jobs) as ex:
-        futs = {ex.submit(run_query, q): q for q in queries}
+        futs = {ex.submit(run_query_chain, q): q for q in queries}
         done = 0
         for fu in cf.as_completed(futs):
             q = futs[fu]
             try:
-                r = fu.result()
+                r, q = fu.result()
             except Exception as e:
                 r = {"name": q.name, "verdict": "error", "detail": repr(e), "harness": q.harness, "params": {}}
             qmap[r["name"]] = q
@@ -546,6 +582,7 @@ def run_property(prop, tier, queries, meta):
     unconfirmed = []
     broken = [r for r in results if r["verdict"] in ("error", "noverdict")]
     failing = [r for r in results if r["verdict"] == "fail"]
+    skipped = [r for r in results if r["verdict"] == "skipped"]
     # replay (sequential per failing query, parallel across queries)
     def handle(r):
         q = qmap[r["name"]]
@@ -613,6 +650,8 @@ def run_property(prop, tier, queries, meta):
         "queries_passed": len(passed),
         "queries_failed": len(failing),
         "no_verdict": [r["name"] for r in broken],
+        "filter_queries": sum(1 for r in results if r.get("filter")),
+        "filter_failures_decided_by_exact_query": [{"filter": r.get("filter_failed", "")[:160], "exact_verdict": r["verdict"]} for r in results if r.get("filter_failed")][:40],
         "vcs_total": sum(r.get("vcs", 0) for r in results),
         "free_input_bits_max": max([r.get("free_input_bits", 0) for r in results] or [0]),
         "solver_time_s": round(sum(r.get("solver_seconds", 0) for r in results), 1),
@@ -634,7 +673,7 @@ def run_property(prop, tier, queries, meta):
           (prop, tier, len(results), len(passed), len(failing), len(seen), len(violations), len(unconfirmed), len(broken), wall, cov["solver_time_s"]), flush=True)
     if violations:
         return 1
-    if broken or unconfirmed:
+    if broken or unconfirmed or skipped:      # 'skipped' only arises after a failing exact query
         return 2
     return 0
 
